@@ -1913,7 +1913,8 @@ struct Value {
             groupedValue.setTypeToObject();
 
             // An item can be a pointer to the object, like the set itself can be one.
-            const Value *obj = ((item_ != nullptr) ? item_->pointee() : nullptr);
+            // The storage can be there without any item in it (reserved, cleared or dropped).
+            const Value *obj = (array_.IsNotEmpty() ? item_->pointee() : nullptr);
 
             if ((obj != nullptr) && obj->isObject() && obj->object_.GetKeyIndex(grouped_key_index, key, length)) {
                 const Value *end = array_.End();
